@@ -1299,7 +1299,10 @@ impl Analyzable for Statement
 				}
 				else
 				{
-					None
+					// The type of the value is not known (yet), for example
+					// because it contains an error, but the declaration has
+					// an explicit type.
+					Some(declared_type)
 				};
 				Statement::Declaration {
 					name,
